@@ -3,6 +3,8 @@
 package transaction
 
 import (
+	"errors"
+
 	"github.com/KevoDB/kevo/pkg/common/iterator"
 	"github.com/KevoDB/kevo/pkg/wal"
 	"github.com/KevoDB/kevo/pkg/zzverif/vsym"
@@ -17,6 +19,8 @@ type recStorage struct {
 	batches   [][]*wal.Entry
 	reads     int
 	unlocked  int // storage accesses made while the isolation lock was free
+	failBatch bool // the storage layer refuses the batch (log full, entry too large, engine closed ...)
+	refused   int
 }
 
 func (s *recStorage) note() {
@@ -34,6 +38,10 @@ func (s *recStorage) Get(key []byte) ([]byte, error) {
 }
 func (s *recStorage) ApplyBatch(entries []*wal.Entry) error {
 	s.note()
+	if s.failBatch {
+		s.refused++
+		return errors.New("storage refuses the batch")
+	}
 	s.batches = append(s.batches, entries)
 	return nil
 }
@@ -54,6 +62,7 @@ func VerifC17_TxCallSequences() {
 	mgr := NewManager(st, nil)
 	st.lock = &mgr.txLock
 	ro := vsym.IntRange("readonly", 0, 1) == 1
+	st.failBatch = vsym.IntRange("storagefails", 0, 1) == 1
 	tx, err := mgr.BeginTransaction(ro)
 	vsym.Assert(err == nil, "begin failed")
 	K := [2][]byte{vsym.Bytes("K0", 1), vsym.Bytes("K1", 1)}
@@ -137,14 +146,21 @@ func VerifC17_TxCallSequences() {
 			if finished {
 				vsym.Assert(cerr == ErrTransactionClosed, "second finish must fail with the closed error")
 			} else {
-				vsym.Assert(cerr == nil, "Commit failed")
-				finished, committed = true, true
 				nops := 0
 				for ki := 0; ki < 2; ki++ {
 					if st8[ki] != 0 {
 						nops++
 					}
 				}
+				finished = true
+				if st.failBatch && nops > 0 {
+					// a commit that storage refuses fails, and the transaction is over all the same
+					vsym.Assert(cerr != nil, "Commit reports success although storage refused the batch")
+					vsym.Assert(st.refused == 1 && len(st.batches) == 0, "a refused commit reached storage more than once or left a batch")
+					break
+				}
+				vsym.Assert(cerr == nil, "Commit failed")
+				committed = true
 				if nops == 0 {
 					vsym.Assert(len(st.batches) == batchesBefore, "an empty or read-only commit reached storage")
 				} else {
